@@ -11,6 +11,13 @@ def gen_rs(r):
     if k == 2: return ['beforeany', 'Semi', 'Comma']
     return ['afterany', 'Semi', 'Comma']
 
+def ends_with_stabilize(g):
+    """the last parser of g to run on a successful parse is a stabilize"""
+    if not isinstance(g, list) or not g: return False
+    if g[0] == 'stabilize': return True
+    if g[0] in ('both', 'right'): return ends_with_stabilize(g[2])
+    return False
+
 class C12(GProp):
     id = 'C12'
     files = ['tephra-error/src/recover.rs', 'tephra/src/lexer.rs', 'tephra-combinator/src/control.rs']
@@ -75,6 +82,13 @@ class C12(GProp):
         refs = peg.reference(c['text'], c['le'], c['tab'], c['scanner'], c['filter'], c['g'], sink=c['sink'], runs=c['runs'])
         runs = [x for x in it[1:] if isinstance(x, list) and x[0] == 'run']
         fails = []
+        if ends_with_stabilize(c['g']):
+            # needs no reference: whichever attempt of the stabilising parse succeeded, the returned lexer is stable
+            for ri, run in enumerate(runs, 1):
+                kind, v, lx = run_result(run)
+                if kind == 'ok' and lx.get('rec') == ['T']:
+                    return [((ri,), 'invocation %d of %s on %s: the stabilising parse succeeded but the returned lexer still carries the recovering state'
+                             % (ri, sexp.dump(c['g'])[:90], ' '.join(c['text'])))]
         for ri, (ref, run) in enumerate(zip(refs, runs), 1):
             if ref[0] == 'notcovered':
                 return fails
